@@ -19,7 +19,14 @@ import (
 
 // RepoDir is /repo; VERIF_REPO overrides it for development runs against scratch worktrees.
 var RepoDir = repoDir()
-const VerifDir = "/verif"
+// VerifDir is where harnesses, known findings, evidence and replays live; VERIF_DIR overrides it
+// (used for background runs from a snapshot, whose output must not touch /verif/evidence).
+var VerifDir = func() string {
+	if d := os.Getenv("VERIF_DIR"); d != "" {
+		return d
+	}
+	return "/verif"
+}()
 const NetpollPath = "github.com/cloudwego/netpoll"
 
 type HarnessInfo struct {
